@@ -6,6 +6,17 @@ VERIF = os.path.dirname(os.path.dirname(os.path.abspath(__file__)))
 
 # property -> (level text, level note, technique, design_ref)
 CLAIMED = {
+    "C13": (
+        "Kernel-checked theorem C13_getitem: for every element type, shape and key (ints, slices with any start/stop/step, "
+        "pairs, coordinate lists) the model of Array2D._getitem_impl returns exactly what per-axis Python list indexing "
+        "selects from the equivalent list of lists (same elements, order, result kind/shape, same exception); C13_reshape "
+        "for flatten/reshape. Model tied to /repo by an exhaustive small-scope + random correspondence run against the real "
+        "arrays, and the spec itself is run against CPython lists.",
+        "Trusted: Lean kernel + propext/Classical.choice/Quot.sound; the Lean model of _parse_range/_range_size/_getitem_impl "
+        "(hand-written, correspondence-checked); CPython's slice.indices and list indexing (modelled by sliceIndices / "
+        "Spec.sliceSel, validated against CPython on every run); 1-D arrays delegate to list indexing (checked by correspondence).",
+        "Lean 4 theorem (model = filter-style list-slicing spec) + differential correspondence",
+        "DESIGN.md §5 C13"),
 }
 
 NOT_YET = "machinery for this property is still under construction in this round (model/theorems not yet committed)"
